@@ -800,3 +800,119 @@ Example oracle_on_model_plain :
   let i := ISeal [1] zero_nonce 1000000%Z 1000000%Z {| u_path := [111; 47; 114]; u_query := [120; 61; 49] |} MNone 1000500%Z in
   oracle i (model_obs i) = true.
 Proof. vm_compute. reflexivity. Qed.
+
+(* ================================================================== *)
+(* Part 3: the gRPC service layer (getRepoPath -> getOrCreateStore -> DBCache.Get) *)
+(* ================================================================== *)
+
+(* Clean of a relative path that is neither ".." nor begins with "../" has no ".." segment *)
+Lemma guard_shape_rel p1 :
+  is_prefix [47] p1 = false ->
+  let p := clean p1 in
+  beq_bytes p s_dotdot = false -> is_prefix [46; 46; 47] p = false ->
+  nodd (split_on 47 p) /\ is_prefix [47] p = false.
+Proof.
+  intros Hrel p Hne Hpre. subst p. unfold clean in *.
+  destruct p1 as [|c t] eqn:Ep1.
+  { split; [repeat constructor | reflexivity]. }
+  assert (Hc : (c =? c_slash) = false).
+  { cbn [is_prefix] in Hrel. unfold c_slash. rewrite N.eqb_sym. destruct (47 =? c); [discriminate|reflexivity]. }
+  rewrite Hc in *.
+  destruct (cstack_false_shape (split_on c_slash (c :: t)) [] (ex_intro _ [] (ex_intro _ 0%nat (conj eq_refl (Forall_nil _)))))
+    as [nm [k [Est Hnm]]].
+  assert (Hns : Forall noslash (cstack false (split_on c_slash (c :: t)) [])).
+  { apply Forall_forall. intros g Hg. apply cstack_in in Hg. destruct Hg as [Hg|[]].
+    pose proof (split_on_noslash (c :: t)) as F. rewrite Forall_forall in F. apply F. exact Hg. }
+  rewrite Est in *. rewrite rev_app_distr, rev_repeat_dd in *.
+  destruct k as [|k].
+  - cbn [repeat app] in *.
+    destruct (rev nm) as [|x r] eqn:Er.
+    { split; [repeat constructor | reflexivity]. }
+    assert (Hg : Forall goodseg (x :: r)) by (rewrite <- Er; apply Forall_rev; exact Hnm).
+    assert (Hn : Forall noslash (x :: r)).
+    { rewrite <- Er. apply Forall_rev. rewrite app_nil_r in Hns. exact Hns. }
+    split.
+    + rewrite split_join; [|discriminate|exact Hn]. apply good_nodd. exact Hg.
+    + inversion Hg as [|? ? Hx _]; subst. inversion Hn as [|? ? Hxn _]; subst.
+      destruct (goodseg_head x Hx Hxn) as [c0 [t0 [-> Hc0]]].
+      cbn [join_slash app is_prefix]. apply N.eqb_neq in Hc0. rewrite N.eqb_sym, Hc0. reflexivity.
+  - exfalso. cbn [repeat app] in *.
+    destruct (repeat s_dotdot k ++ rev nm) as [|y r] eqn:Er.
+    + cbn in Hne. discriminate Hne.
+    + cbn [join_slash s_dotdot app flat_map is_prefix] in Hpre. cbn in Hpre. discriminate Hpre.
+Qed.
+
+(* With the repository path validated (the proposed repair), the directory the service creates / opens is the
+   root or below it — for EVERY repo_path / repo_id a client can send. *)
+Theorem grpc_confined_guarded :
+  forall root use_id p org name d, absolute root ->
+    grpc_access true root (grpc_repo_path use_id p org name) = Some d -> under root d.
+Proof.
+  intros root use_id p org name d Habs H. set (rp := grpc_repo_path use_id p org name) in *.
+  unfold grpc_access in H. unfold c_slash in H.
+  destruct (is_prefix [47] rp) eqn:Hrel; [discriminate|].
+  destruct (beq_bytes (clean rp) s_dotdot) eqn:Hne; [discriminate|]. cbn [orb] in H.
+  destruct (is_prefix [46; 46; 47] (clean rp)) eqn:Hpre; [discriminate|].
+  inversion H; subst d. clear H.
+  destruct (guard_shape_rel rp Hrel Hne Hpre) as [Hnodd Hrel'].
+  unfold fs_abs, c_slash. rewrite Hrel'. rewrite join2_abs by exact Habs.
+  apply resolve_under; assumption.
+Qed.
+
+(* As the code is (no validation): NOT confined — a relative path with ".." and an absolute path both leave the
+   root.  Witnesses: root /srv/root, repo_path "../x" -> /srv/x ; repo_path "/etc/x" -> /etc/x. *)
+Theorem grpc_confined_refuted :
+  exists root rp1 d1 rp2 d2, absolute root
+    /\ grpc_access false root rp1 = Some d1 /\ ~ under root d1
+    /\ grpc_access false root rp2 = Some d2 /\ ~ under root d2.
+Proof.
+  exists f4_root, [46; 46; 47; 120], [47; 115; 114; 118; 47; 120], [47; 101; 116; 99; 47; 120], [47; 101; 116; 99; 47; 120].
+  split; [exists [115; 114; 118; 47; 114; 111; 111; 116]; reflexivity|].
+  repeat split; try (vm_compute; reflexivity);
+    intros H; apply under_b_spec in H; vm_compute in H; discriminate H.
+Qed.
+
+Example grpc_witnesses_guarded :
+  grpc_access true f4_root [46; 46; 47; 120] = None /\ grpc_access true f4_root [47; 101; 116; 99; 47; 120] = None
+  /\ grpc_access true f4_root [111; 114; 103; 47; 114] = Some (f4_root ++ [47; 111; 114; 103; 47; 114]).
+Proof. vm_compute. repeat split. Qed.
+
+(* ================================================================== *)
+(* Part 4: the oracle holds on the model                                *)
+(* ================================================================== *)
+(* handler and gRPC cases, guarded code: everything the model touches or serves is under the root *)
+Lemma handle_touched_under guard ctx meth ro qbad hp :
+  absolute (fs_root ctx) -> guard = true ->
+  forallb (under_b (fs_root ctx)) (h_touched (handle guard ctx meth ro qbad hp)) = true
+  /\ match h_read (handle guard ctx meth ro qbad hp) with Some f => under_b (fs_root ctx) f = true | None => True end.
+Proof.
+  intros Habs ->. unfold handle.
+  destruct (meth =? 0).
+  - unfold get_handle. destruct (get_access (fs_root ctx) hp) as [abs|] eqn:E; [|split; [reflexivity|exact I]].
+    destruct (fs_bad abs); [split; [reflexivity|exact I]|].
+    destruct (mem_bytes abs (fs_files ctx)); cbn [h_touched h_read]; (split; [reflexivity|]); [|exact I].
+    apply under_b_spec. eapply get_confined; eassumption.
+  - destruct ((meth =? 1) || (meth =? 2)); [|split; [reflexivity|exact I]].
+    unfold post_handle. destruct ro; [split; [reflexivity|exact I]|].
+    destruct (post_access true (fs_root ctx) hp) as [st|d] eqn:E; [split; [reflexivity|exact I]|].
+    destruct qbad; [split; [reflexivity|exact I]|]. destruct (fs_bad d); [split; [reflexivity|exact I]|].
+    cbn [h_touched h_read forallb]. split; [|exact I]. rewrite andb_true_r.
+    apply under_b_spec. eapply post_confined_guarded; eassumption.
+Qed.
+
+Theorem oracle_on_model_confinement :
+  (forall ctx mode meth ro qbad p, absolute (fs_root ctx) ->
+     oracle (IHandle true ctx mode meth ro qbad p) (model_obs (IHandle true ctx mode meth ro qbad p)) = true)
+  /\ (forall ctx use_id p org name, absolute (fs_root ctx) ->
+     oracle (IGrpc true ctx use_id p org name) (model_obs (IGrpc true ctx use_id p org name)) = true).
+Proof.
+  split.
+  - intros ctx mode meth ro qbad p Habs. cbn [oracle model_obs].
+    destruct (transport mode p) as [hp|]; [|reflexivity].
+    destruct (handle_touched_under true ctx meth ro qbad hp Habs eq_refl) as [H1 H2]. rewrite H1. cbn [andb].
+    destruct (h_read (handle true ctx meth ro qbad hp)); [exact H2|reflexivity].
+  - intros ctx use_id p org name Habs. cbn [oracle model_obs]. unfold grpc_handle.
+    destruct (grpc_access true (fs_root ctx) (grpc_repo_path use_id p org name)) as [d|] eqn:E; [|reflexivity].
+    destruct (fs_bad d); [reflexivity|]. cbn [snd]. destruct (mem_bytes d (fs_dirs ctx)); [reflexivity|].
+    cbn [forallb]. rewrite andb_true_r. apply under_b_spec. eapply grpc_confined_guarded; eassumption.
+Qed.
